@@ -353,7 +353,11 @@ class FunctionExtension(Expression):
     ) -> List[object]:
         _args: List[object] = []
         for idx, arg in enumerate(args):
-            if func.arg_types[idx] != ExpressionType.NODES and isinstance(
+            if func.arg_types[idx] == ExpressionType.LOGICAL:
+                # A LogicalType parameter receives true or false. A node list
+                # converts to "is not empty".
+                _args.append(_is_truthy(arg))
+            elif func.arg_types[idx] != ExpressionType.NODES and isinstance(
                 arg, JSONPathNodeList
             ):
                 if len(arg) == 0:
